@@ -219,7 +219,7 @@ func (r *schemaLoader) Resolve(ref *Ref, target interface{}, basePath string) er
 	return r.resolveRef(ref, target, basePath)
 }
 
-func (r *schemaLoader) deref(input interface{}, parentRefs []string, basePath string) error {
+func (r *schemaLoader) deref(input interface{}, parentRefs []string, basePath string) (*schemaLoader, string, error) {
 	var ref *Ref
 	switch refable := input.(type) {
 	case *Schema:
@@ -231,32 +231,33 @@ func (r *schemaLoader) deref(input interface{}, parentRefs []string, basePath st
 	case *PathItem:
 		ref = &refable.Ref
 	default:
-		return fmt.Errorf("unsupported type: %T: %w", input, ErrDerefUnsupportedType)
+		return r, basePath, fmt.Errorf("unsupported type: %T: %w", input, ErrDerefUnsupportedType)
 	}
 
 	curRef := ref.String()
 	if curRef == "" {
-		return nil
+		return r, basePath, nil
 	}
 
 	normalizedRef := normalizeRef(ref, basePath)
-	normalizedBasePath := normalizedRef.RemoteURI()
 
 	if r.isCircular(normalizedRef, basePath, parentRefs...) {
-		return nil
+		return r, basePath, nil
 	}
 
-	if err := r.resolveRef(ref, input, basePath); r.shouldStopOnError(err) {
-		return err
+	followed := *ref
+	*ref = Ref{}
+	if err := r.resolveRef(&followed, input, basePath); r.shouldStopOnError(err) {
+		*ref = followed
+		return r, basePath, err
 	}
 
-	if ref.String() == "" || ref.String() == curRef {
-		// done with rereferencing
-		return nil
-	}
+	// the resolved content lives in the document pointed to by the followed $ref
+	transitive := r.transitiveResolver(basePath, followed)
+	basePath = r.updateBasePath(transitive, basePath)
 
 	parentRefs = append(parentRefs, normalizedRef.String())
-	return r.deref(input, parentRefs, normalizedBasePath)
+	return transitive.deref(input, parentRefs, basePath)
 }
 
 func (r *schemaLoader) shouldStopOnError(err error) bool {
